@@ -103,6 +103,10 @@ def product_cases(rnd, n):
         yield gen_ctx.fill(ctx, texts)[0]
 
 
+MULTILINE_SEEDS = ["$(echo pre@(x)post)\n", "![echo --flag=@(value) a@$(b c)d]\n", "x = $(echo @(a)@(b) ${'k'}z)\n", "f!(a, [b, c], {d: e})\n", "y = [$(ls -l), !(a b), ${x}, p'/a']\n",
+                   "$(echo @([1, 2, 3]) pre@(f(a, b))suf)\n", "r = g(`a*`, $X, k=@foo`b`)\n", "z = ${f(a, b)} + $(cmd @(x if y else z))\n"]
+
+
 def run_shard(shard):
     acc = Acc()
     if "replay" in shard:
@@ -114,6 +118,11 @@ def run_shard(shard):
     if kind == "fixed":
         for s in gen_py.SEEDS + gen_xonsh.XONSH_STMTS + gen_xonsh.PY_STMTS:
             check_case(acc, s, "exec", "seed")
+        for s in gen_xonsh.XONSH_STMTS + MULTILINE_SEEDS:
+            for _ in range(6):
+                m = gen_xonsh.bracket_newlines(rnd, s)
+                if m:
+                    check_case(acc, m, "exec", "seed-multiline")
         for x, _ in gen_ctx.constructs() + gen_ctx.TARGET_CONSTRUCTS:
             check_case(acc, x, "eval", "construct-eval")
             for ctx in gen_ctx.LOAD_CONTEXTS:
@@ -123,6 +132,10 @@ def run_shard(shard):
     elif kind == "product":
         for s in product_cases(rnd, shard["n"]):
             check_case(acc, s, "exec", "product")
+            if rnd.random() < 0.35:
+                m = gen_xonsh.bracket_newlines(rnd, s)
+                if m:
+                    check_case(acc, m, "exec", "product-multiline")
     elif kind == "mutate":
         pool = list(gen_xonsh.XONSH_STMTS + gen_py.SEEDS)
         for _ in range(shard["n"]):
